@@ -49,6 +49,14 @@ def view(case, pi=None):
     return v
 
 
+def crash_line(out):
+    for l in out.splitlines():
+        if l.startswith("panic:") or l.startswith("fatal error:"):
+            return l.strip()[:200]
+    ls = out.strip().splitlines()
+    return ls[-1].strip()[:200] if ls else "no output"
+
+
 def inputs_only(case):
     c = {k: v for k, v in case.items() if k not in ("obs", "run_err", "wall_us", "timed_out")}
     return c
@@ -122,7 +130,7 @@ def run(ctx):
                 # the supervisor code crashed (panic in one of its goroutines) or hung while these inputs ran
                 ctx.violation({"cases": [inputs_only(c) for c in infl], "case": view(infl[0]), "harness_output": sh["out"][-3000:]},
                               "the harness process died while running %d case(s) (panic/deadlock in the supervisor's output path?): %s"
-                              % (len(infl), sh["out"].strip().splitlines()[-1][:200] if sh["out"].strip() else "no output"))
+                              % (len(infl), crash_line(sh["out"])))
             else:
                 ctx.broken_build("harness-run", sh["out"])
             continue
